@@ -87,9 +87,40 @@ pub enum Tables {
     Any,
     /// heap[i] == qp[i] == i, keys 0..N (large-N instances, DESIGN.md §4)
     Identity,
+    /// identity tables, and the key argument of the operation is this concrete key:
+    /// the position of the addressed element is concrete, all priorities stay symbolic
+    /// (case split of an obligation on the heap position of the addressed element)
+    IdentityKey(u8),
+}
+
+impl Tables {
+    /// the key argument of a keyed operation
+    pub fn pick_key(self) -> u8 {
+        match self {
+            Tables::IdentityKey(k) => k,
+            _ => sym::below(KEYS),
+        }
+    }
 }
 
 pub fn ghost<const N: usize>(double: bool, pre: Pre, tables: Tables) -> Ghost<N> {
+    ghost_with::<N>(double, pre, tables, None)
+}
+
+/// keys 0..N
+pub fn iota<const N: usize>() -> [u8; N] {
+    let mut k = [0u8; N];
+    let mut i = 0;
+    while i < N {
+        k[i] = i as u8;
+        i += 1;
+    }
+    k
+}
+
+/// `keys`: concrete, pairwise distinct keys by slot (the harness needs concrete
+/// presence/absence so that table lengths stay concrete); `None`: symbolic keys
+pub fn ghost_with<const N: usize>(double: bool, pre: Pre, tables: Tables, keys: Option<[u8; N]>) -> Ghost<N> {
     let mut g = Ghost {
         key: [0u8; N],
         pay: [0u8; N],
@@ -105,11 +136,16 @@ pub fn ghost<const N: usize>(double: bool, pre: Pre, tables: Tables) -> Ghost<N>
         g.pay[i] = sym::u8();
         match tables {
             Tables::Any => {
-                g.key[i] = sym::below(KEYS);
-                let mut j = 0;
-                while j < i {
-                    sym::assume(g.key[j] != g.key[i]);
-                    j += 1;
+                match keys {
+                    Some(ks) => g.key[i] = ks[i],
+                    None => {
+                        g.key[i] = sym::below(KEYS);
+                        let mut j = 0;
+                        while j < i {
+                            sym::assume(g.key[j] != g.key[i]);
+                            j += 1;
+                        }
+                    }
                 }
                 g.heap[i] = sym::below(N as u8) as usize;
                 let mut j = 0;
@@ -118,8 +154,11 @@ pub fn ghost<const N: usize>(double: bool, pre: Pre, tables: Tables) -> Ghost<N>
                     j += 1;
                 }
             }
-            Tables::Identity => {
-                g.key[i] = i as u8;
+            Tables::Identity | Tables::IdentityKey(_) => {
+                g.key[i] = match keys {
+                    Some(ks) => ks[i],
+                    None => i as u8,
+                };
                 g.heap[i] = i;
             }
         }
@@ -158,6 +197,13 @@ pub fn build<T: Q, const N: usize>(g: &Ghost<N>, spare: usize) -> T {
 
 pub fn state<T: Q, const N: usize>(pre: Pre, tables: Tables) -> (T, Ghost<N>) {
     let g = ghost::<N>(T::DOUBLE, pre, tables);
+    let q = build::<T, N>(&g, 2);
+    (q, g)
+}
+
+/// pre-state over the concrete keys `keys`
+pub fn state_keys<T: Q, const N: usize>(pre: Pre, tables: Tables, keys: [u8; N]) -> (T, Ghost<N>) {
+    let g = ghost_with::<N>(T::DOUBLE, pre, tables, Some(keys));
     let q = build::<T, N>(&g, 2);
     (q, g)
 }
